@@ -71,7 +71,8 @@ def run(replay=None):
                              "the mesh does not separate inside from outside like the expression (winding number) at a point far from the surface",
                              {"program": p.text(), "command": p.lines[cmd - 1], "detail": out[0]})
             if int(f["unbalanced"]):
-                ck.violation(f"hole:{name}" + (":vol" if vol else ""),
+                # (simplex + cell collapsing - always on here - is the finding recorded under C03)
+                ck.violation("hole:simplex:collapse" if alg == 1 else f"hole:{name}" + (":vol" if vol else ""),
                              "the mesh has unpaired edges (a hole): it cannot separate inside from outside",
                              {"program": p.text(), "command": p.lines[cmd - 1], "detail": out[0]})
             if int(f["outside"]):
